@@ -693,3 +693,60 @@ pub fn histf(case: &JsonValue) -> JsonValue {
     }
     out
 }
+
+// ================================================================ the remote document layer
+struct TextRequester {
+    body: String,
+}
+
+#[async_trait::async_trait(?Send)]
+impl HttpRequester for TextRequester {
+    async fn get(&self, _url: &str) -> Result<String, SError> {
+        Ok(self.body.clone())
+    }
+}
+
+/// {"text": "<document>", "year": y}: the real parse_rates_json through JsonRemoteRateLoader
+pub fn doc(case: &JsonValue) -> JsonValue {
+    use acb::fx::io::RemoteRateLoader;
+    let loader = JsonRemoteRateLoader::new(Box::new(TextRequester { body: case["text"].as_str().unwrap().to_string() }));
+    let r = block_on(loader.get_remote_usd_cad_rates(case["year"].as_u32().unwrap_or(2022)));
+    let mut out = JsonValue::new_object();
+    out["status"] = "ok".into();
+    match r {
+        Ok(res) => {
+            out["rates"] = rates_json(&res.rates);
+            out["nfe"] = res.non_fatal_errors.len().into();
+        }
+        Err(e) => {
+            out["err"] = e.into();
+        }
+    }
+    out
+}
+
+/// {"text": "<number token>"}: how the json crate holds the number, its Display, and Decimal::from_str of that
+pub fn jsonnum(case: &JsonValue) -> JsonValue {
+    use std::str::FromStr;
+    let mut out = JsonValue::new_object();
+    out["status"] = "ok".into();
+    match json::parse(case["text"].as_str().unwrap()) {
+        Ok(JsonValue::Number(n)) => {
+            let (pos, m, e) = n.as_parts();
+            out["parts"] = JsonValue::Array(vec![pos.into(), m.to_string().into(), (e as i64).into()]);
+            let s = n.to_string();
+            out["dec"] = match Decimal::from_str(&s) {
+                Ok(d) => JsonValue::String(d.to_string()),
+                Err(_) => JsonValue::Null,
+            };
+            out["display"] = s.into();
+        }
+        Ok(_) => {
+            out["other"] = true.into();
+        }
+        Err(e) => {
+            out["err"] = e.to_string().into();
+        }
+    }
+    out
+}
